@@ -6,6 +6,8 @@ MODULE = 'Sbepp.Properties.C17'
 THEOREMS = [
     'Sbepp.Properties.C17.fill_values',
     'Sbepp.Properties.C17.fill_frame',
+    'Sbepp.Properties.C17.fill_determined',
+    'Sbepp.Properties.C17.fill_idempotent',
     'Sbepp.Properties.C17.message_filler_is_fields',
     'Sbepp.Properties.C17.group_filler_is_fields',
     'Sbepp.Properties.C17.block_length_value',
